@@ -459,7 +459,7 @@ func runC02(args []string) int {
 	}
 	// black box on another curve: genuine accepted, replay rejected
 	ids := []ecc.ID{ecc.BLS12_377}
-	if o.Thorough() {
+	if o.AllCurves() {
 		ids = []ecc.ID{ecc.BLS12_377, ecc.BLS12_381, ecc.BW6_761, ecc.BLS24_315, ecc.BLS24_317, ecc.BW6_633}
 	}
 	for _, id := range ids {
